@@ -455,6 +455,10 @@ pub fn run(args: &[String]) -> i32 {
             None => break,
             Some(rl) => {
                 let raw = case_from(&rl, seed, tier);
+                if raw.class == "harness" {
+                    let _ = std::fs::remove_dir_all(&dir);
+                    die(&format!("scenario {}: {}", raw.run, raw.message));
+                }
                 if let Some(k) = known.findings.iter().find(|k| matches_known(k, &raw)) {
                     let line = format!("KNOWN-FINDING: property=C19 {}", k.what);
                     if !known_hits.contains(&line) {
